@@ -66,11 +66,28 @@ JudgeSized(N, o, idx) ==
     /\ (o.acc = a \/ Fail(IF a THEN "rejected-sized-fits" ELSE "accepted-sized-too-wide", idx))
     /\ ((o.acc /\ a) => (o.bits = BitsOf(o.v, N) \/ Fail("bits-sized", idx)))
 
+\* An argument accepted by an outer parameter (okind, on), kept in a local and
+\* handed through an asm block to an inner parameter (kind, n), is still the
+\* same number: the inner range applies to it unchanged (it does not become
+\* "a bit pattern that fits" because it carries a size).
+JudgeFwd(ok, on, kind, N, o, idx) ==
+    LET a == Accepts(ok, on, o.v) /\ Accepts(kind, N, o.v) IN
+    /\ (o.acc = a \/ Fail(IF a THEN "fwd-rejected-in-range" ELSE "fwd-accepted-out-of-range", idx))
+    /\ ((o.acc /\ a) => (o.bits = BitsOf(o.v, N) \/ Fail("fwd-bits", idx)))
+
+\* A literal that carries a size (leading zeros, a string) into a typed
+\* parameter: the statement speaks about the value only.
+JudgeSizedArg(kind, N, o, idx) ==
+    LET a == Accepts(kind, N, o.v) IN
+    /\ (o.acc = a \/ Fail(IF a THEN "sizedarg-rejected-in-range" ELSE "sizedarg-accepted-out-of-range", idx))
+    /\ ((o.acc /\ a) => (o.bits = BitsOf(o.v, N) \/ Fail("sizedarg-bits", idx)))
+
 TTyped ==
     /\ l <= Len(Rec) /\ l' = l + 1
-    /\ IF E.ev = "typed"
-       THEN \A idx \in 1..Len(E.obs) : JudgeOne(E.kind, E.n, E.obs[idx], idx)
-       ELSE \A idx \in 1..Len(E.obs) : JudgeSized(E.n, E.obs[idx], idx)
+    /\ CASE E.ev = "typed" -> \A idx \in 1..Len(E.obs) : JudgeOne(E.kind, E.n, E.obs[idx], idx)
+         [] E.ev = "fwd" -> \A idx \in 1..Len(E.obs) : JudgeFwd(E.okind, E.on, E.kind, E.n, E.obs[idx], idx)
+         [] E.ev = "sizedarg" -> \A idx \in 1..Len(E.obs) : JudgeSizedArg(E.kind, E.n, E.obs[idx], idx)
+         [] OTHER -> \A idx \in 1..Len(E.obs) : JudgeSized(E.n, E.obs[idx], idx)
 
 TSpec == l = 1 /\ [][TTyped]_l
 
